@@ -376,7 +376,15 @@ class Ref:
                 if op[0] in ("r", "w", "wl"):
                     touched.add(op[1])          # the handle is marked dirty before anything else happens
                 if fault and fault["op"] == k:
-                    # calls before the refused one may already panic (PersistentLog.Index out of range etc.): not generated
+                    # the Index calls before the refused one are executed and may already panic
+                    if fault["call"] >= 1 and op[0] in ("r", "w", "wl") and op[2]:
+                        kd, o_ = self.kinds[op[1]], st[op[1]]
+                        if kd == "hashmap_local" and json.dumps(op[2][0]) not in o_["m"]:
+                            raise Crash()
+                        if kd == "plog" and not (isinstance(op[2][0], int) and not isinstance(op[2][0], bool) and 1 <= op[2][0] <= len(o_["log"])):
+                            raise Crash()
+                        if kd == "filesystem" and not isinstance(op[2][0], str):
+                            raise Crash()
                     raise Block()
                 if op[0] == "await":
                     if not op[1]:
@@ -436,6 +444,20 @@ class Ref:
 
 VALS = [0, 1, 2, 7, -3, "a", "b", "msg", True, None]
 KEYS = [1, 2, "k", 3]
+# indices with the same 32-bit tla.Value.Hash() that are not Equal: the dirty-element sets of IncMap / HashMap /
+# FileSystem / Mailboxes are hash maps keyed by the index, so colliding indices share a bucket
+CLUSTERS = [[True, 1], [0, False, {"r": []}], [{"t": []}, ""]]
+CFILES = ["glbvs.txt", "yacxa.txt"]
+
+
+def map_keys(d):
+    """the indices used with map resource d"""
+    if d["kind"] == "hashmap_local":
+        return [kv[0] for kv in d["table"]]
+    if d["kind"] == "filesystem":
+        return ["f1", "f2", "f3"] + d.get("cfiles", [])
+    seen = [json.dumps(k) for k in KEYS]
+    return KEYS + [k for k in d.get("ckeys", []) if json.dumps(k) not in seen]
 
 
 def gen_val(rng, depth=0):
@@ -484,8 +506,17 @@ def gen_res(rng, name, kind):
         d["items"] = [rng.choice([10, 11, 12, "m1", "m2"]) for _ in range(rng.randint(0, 4))]
     elif kind == "filesystem":
         d["files"] = [["f1", "old1"]] + ([["f2", "old2"]] if rng.random() < 0.5 else [])
+        if rng.random() < 0.6:
+            d["cfiles"] = list(CFILES)
+            d["files"] += [[f, "orig-" + f] for f in CFILES if rng.random() < 0.6]
     elif kind == "hashmap_local":
-        d["table"] = [[k, gen_struct(rng)] for k in KEYS[:rng.randint(1, 4)]]
+        keys = KEYS[:rng.randint(1, 4)]
+        if rng.random() < 0.5:
+            cl = rng.choice(CLUSTERS)
+            keys = [k for k in keys[:2] if json.dumps(k) not in [json.dumps(x) for x in cl]] + cl
+        d["table"] = [[k, gen_struct(rng)] for k in keys]
+    if kind in ("incmap_local", "incmap_persist") and rng.random() < 0.6:
+        d["ckeys"] = list(rng.choice(CLUSTERS))
     return d
 
 
@@ -511,7 +542,7 @@ def gen_op(rng, ref, d, malformed):
     if kind in ("outchan", "singleout"):
         return ["w", name, [], rng.choice([5, 6, "o1", "o2"])] if not malformed else ["r", name, []]
     if kind == "filesystem":
-        f = rng.choice(["f1", "f2", "f3"])
+        f = rng.choice(map_keys(d))
         if rng.random() < 0.45 and (f in st["files"] or malformed):
             return ["r", name, [f]]
         return ["w", name, [f], rng.choice(["n1", "n2", "n3"])] if not malformed else ["w", name, [f], 5]
@@ -519,7 +550,7 @@ def gen_op(rng, ref, d, malformed):
         if kind == "hashmap_local":
             keys = [kv[0] for kv in d["table"]] + (["zz"] if malformed else [])
         else:
-            keys = KEYS
+            keys = map_keys(d)
         k = rng.choice(keys)
         c = st["m"].get(json.dumps(k))
         cur = st["default"] if c is None else c["v"]
@@ -575,11 +606,11 @@ def gen_case(rng, malformed=False):
     snap = [[".pc", []]]
     for d in res:
         if d["kind"] in ("incmap_local", "incmap_persist"):
-            snap.append([d["name"], KEYS])
+            snap.append([d["name"], map_keys(d)])
         elif d["kind"] == "hashmap_local":
             snap.append([d["name"], [kv[0] for kv in d["table"]]])
         elif d["kind"] == "filesystem":
-            snap.append([d["name"], ["f1", "f2", "f3"]])
+            snap.append([d["name"], map_keys(d)])
         elif d["kind"] in ("tcp", "relaxed", "tcp_local", "relaxed_local", "fd"):
             snap.append([d["name"], [0]])
         else:
@@ -617,27 +648,50 @@ def gen_case(rng, malformed=False):
         natt += 3
     # map pattern: one section touches 2-4 elements of the same map and the PreCommit of some of them (chosen by
     # key: first, middle, last in whatever order the map visits them) refuses; nothing of it may commit
-    maps = [d for d in res if d["kind"] in ("incmap_local", "hashmap_local", "incmap_persist")]
-    if maps and not malformed and rng.random() < 0.7:
+    maps = [d for d in res if d["kind"] in ("incmap_local", "hashmap_local", "incmap_persist", "filesystem")]
+    if maps and not malformed and rng.random() < 0.75:
         d = rng.choice(maps)
-        keys = [kv[0] for kv in d["table"]] if d["kind"] == "hashmap_local" else list(KEYS)
+        isfs = d["kind"] == "filesystem"
+        keys = list(map_keys(d))
         rng.shuffle(keys)
-        keys = keys[:rng.randint(min(2, len(keys)), len(keys))]
+        keys = keys[:rng.randint(min(2, len(keys)), min(4, len(keys)))]
+        # a share of these sections touches indices that collide in the hash of the dirty-element set
+        cj = set(json.dumps(x) for c in CLUSTERS for x in c)
+        coll = d.get("cfiles") or d.get("ckeys") or [kv[0] for kv in d.get("table", []) if json.dumps(kv[0]) in cj]
+        if len(coll) >= 2 and rng.random() < 0.7:
+            keys = [k for k in keys if json.dumps(k) not in [json.dumps(c) for c in coll]][:1] + coll
+            rng.shuffle(keys)
         ops = []
         for k in keys:
-            ops.append(["w", d["name"], [k], gen_val(rng)] if rng.random() < 0.8 else ["r", d["name"], [k]])
+            if isfs:
+                ops.append(["w", d["name"], [k], rng.choice(["n1", "n2", "n3", "n4"])])
+            else:
+                ops.append(["w", d["name"], [k], gen_val(rng)] if rng.random() < 0.8 else ["r", d["name"], [k]])
         others = [x for x in res if x["kind"] in ("local", "outchan", "persist")]
         if others and rng.random() < 0.5:
             o = rng.choice(others)
             ops.insert(rng.randint(0, len(ops)), ["w", o["name"], [], rng.choice([1, "v"])])
         refuse = [k for k in keys if rng.random() < 0.4] or [rng.choice(keys)]
-        at = {"env": [], "ops": ops, "fault": None, "pcfail": [], "epcfail": [[d["name"], k] for k in refuse]}
+        if isfs:                                   # the elements of a FileSystem cannot be wrapped: fail the whole map
+            at = {"env": [], "ops": ops + ([["await", False]] if rng.random() < 0.5 else []), "fault": None, "pcfail": [d["name"]]}
+        else:
+            at = {"env": [], "ops": ops, "fault": None, "pcfail": [], "epcfail": [[d["name"], k] for k in refuse]}
         ref.attempt(at)
         case["attempts"].append(at)
-        at2 = {"env": [], "ops": [list(o) for o in ops], "fault": None, "pcfail": []}
-        ref.attempt(at2)
-        case["attempts"].append(at2)
-        natt += 2
+        # what the failed attempt touched is read back (a leftover shows), then the section runs again and commits,
+        # then everything is read back again (a missing commit shows)
+        rd = lambda: [["r", d["name"], [k]] for k in keys if (not isfs or k in ref.state[d["name"]]["files"])
+                      and (d["kind"] != "hashmap_local" or True)]
+        for ops2 in (rd(), [list(o) for o in ops if o[0] != "await"], None):
+            if ops2 is None:
+                ops2 = rd()
+            if not ops2:
+                continue
+            at2 = {"env": [], "ops": ops2, "fault": None, "pcfail": []}
+            ref.attempt(at2)
+            case["attempts"].append(at2)
+            natt += 1
+        natt += 1
     # network pattern: the peer of a TCP mailbox resets the connection before, between and after the writes of a
     # section, or is unreachable for a while; nothing of a failed attempt may be delivered
     nets = [d for d in res if d["kind"] == "tcp"]
@@ -771,6 +825,9 @@ def gen_case(rng, malformed=False):
                             if op[2][0] in ref.state[name]["files"]:
                                 obs_ops.append(["r", name, op[2][:1]])
                             obs_ops.append(["w", name, [rng.choice(["f1", "f2", "f3"])], "obs"])
+                            for f2 in CFILES:          # the other member of a colliding pair
+                                if f2 != op[2][0] and op[2][0] in CFILES and f2 in ref.state[name]["files"]:
+                                    obs_ops.append(["r", name, [f2]])
                     elif kind == "plog":
                         obs_ops.append(["w", name, [], R(cmd="log_concat", entries=T("obs"))])
                         obs_ops.append(["r", name, []])
@@ -799,7 +856,7 @@ def gen_case(rng, malformed=False):
             elif k == "plog":
                 ops.append(["r", d["name"], []])
             elif k in ("incmap_local", "incmap_persist"):
-                ops += [["r", d["name"], [kk]] for kk in KEYS]
+                ops += [["r", d["name"], [kk]] for kk in map_keys(d)]
             elif k == "filesystem":
                 ops += [["r", d["name"], [f]] for f in sorted(o["files"])]
         if ops:
